@@ -2775,7 +2775,15 @@ impl<'de, 'e> de::Deserializer<'de> for YamlDeserializer<'de, 'e> {
                         location: variant_location,
                     },
                 )?;
-                Ok((v, VA { ev, cfg, map_mode }))
+                Ok((
+                    v,
+                    VA {
+                        ev,
+                        cfg,
+                        map_mode,
+                        variant_location,
+                    },
+                ))
             }
         }
 
@@ -2783,9 +2791,24 @@ impl<'de, 'e> de::Deserializer<'de> for YamlDeserializer<'de, 'e> {
             ev: &'e mut dyn Events<'de>,
             cfg: Cfg,
             map_mode: bool,
+            variant_location: Location,
         }
 
         impl<'de, 'e> VA<'de, 'e> {
+            /// A variant written as a bare scalar (`Variant`) has no payload node. The payload is
+            /// then read from an empty (null-like) scalar, so `Option`/unit payloads still work and
+            /// everything else is reported as an error instead of consuming the node that follows.
+            fn absent_payload(&self) -> ReplayEvents<'de> {
+                ReplayEvents::new(vec![Ev::Scalar {
+                    value: Cow::Borrowed(""),
+                    tag: SfTag::None,
+                    raw_tag: None,
+                    style: ScalarStyle::Plain,
+                    anchor: 0,
+                    location: self.variant_location,
+                }])
+            }
+
             /// In map mode (`{ Variant: ... }`) ensure the closing `}` is present.
             fn expect_map_end(&mut self) -> Result<(), Error> {
                 match self.ev.next()? {
@@ -2830,6 +2853,10 @@ impl<'de, 'e> de::Deserializer<'de> for YamlDeserializer<'de, 'e> {
             where
                 T: de::DeserializeSeed<'de>,
             {
+                if !self.map_mode {
+                    let mut payload = self.absent_payload();
+                    return seed.deserialize(YamlDeserializer::new(&mut payload, self.cfg));
+                }
                 // Get locations for error reporting before deserializing.
                 let defined_location = self
                     .ev
@@ -2854,11 +2881,14 @@ impl<'de, 'e> de::Deserializer<'de> for YamlDeserializer<'de, 'e> {
             where
                 Vv: Visitor<'de>,
             {
+                if !self.map_mode {
+                    let mut payload = self.absent_payload();
+                    return YamlDeserializer::new(&mut payload, self.cfg)
+                        .deserialize_tuple(len, visitor);
+                }
                 let result =
                     YamlDeserializer::new(self.ev, self.cfg).deserialize_tuple(len, visitor)?;
-                if self.map_mode {
-                    self.expect_map_end()?;
-                }
+                self.expect_map_end()?;
                 Ok(result)
             }
 
@@ -2871,11 +2901,14 @@ impl<'de, 'e> de::Deserializer<'de> for YamlDeserializer<'de, 'e> {
             where
                 Vv: Visitor<'de>,
             {
+                if !self.map_mode {
+                    let mut payload = self.absent_payload();
+                    return YamlDeserializer::new(&mut payload, self.cfg)
+                        .deserialize_struct("", fields, visitor);
+                }
                 let result = YamlDeserializer::new(self.ev, self.cfg)
                     .deserialize_struct("", fields, visitor)?;
-                if self.map_mode {
-                    self.expect_map_end()?;
-                }
+                self.expect_map_end()?;
                 Ok(result)
             }
         }
